@@ -153,6 +153,28 @@ func (cx *Ctx) newVFlow(entryKey string, entries ...*ssa.Function) *VFlow {
 			}
 		}
 	}
+	// decoder targets reached through helpers (the target travels as interface{} parameter)
+	for _, fn := range w.sortedFuncs(vf.scope) {
+		for _, c := range callsIn(fn) {
+			name := calleeName(c)
+			if name != "encoding/xml.Unmarshal" && name != "(*encoding/xml.Decoder).Decode" && name != "(*encoding/xml.Decoder).DecodeElement" {
+				continue
+			}
+			for _, a := range c.Common().Args {
+				if _, isIface := a.Type().Underlying().(*types.Interface); !isIface {
+					continue
+				}
+				for _, l := range vf.Labels(a).leaves() {
+					if strings.HasPrefix(l, "alloc:") {
+						if al := vf.allocByLabel(l); al != nil && !vf.decoded[al] {
+							vf.decoded[al] = true
+							vf.objMemo = map[ssa.Value]LabelSet{}
+						}
+					}
+				}
+			}
+		}
+	}
 	return vf
 }
 
